@@ -159,7 +159,7 @@ class FuncGen:
     # ---------------------------------------------------------------- straight-line pieces
     def gen_int(self):
         r = self.r
-        k = r.below(21)
+        k = r.below(22)
         d = self.ireg()
         if k <= 2:
             self.emit(r.choice(INT3), d, self.isrc(), self.isrc()); self.stat("int3")
@@ -277,6 +277,18 @@ class FuncGen:
                 self.emit("mov", nm, self.isrc())
                 self.emit("mov", d, ("mem", wt, off, base, None, 1))
             self.stat("overlap_access")
+        elif k == 21:
+            # chains of operations with large constants (the optimizer combines the constants)
+            BIG = [2147483647, 2147483648, 6442450944, -2147483648, -2147483649, 9223372036854775807, 255, -1]
+            op = r.choice(["add", "sub", "mul", "and", "or", "xor"])
+            sfx = "s" if r.chance(1, 4) else ""
+            self.emit(op + sfx, d, self.ireg(), r.choice(BIG))
+            for _ in range(1 + r.below(2)):
+                op2 = r.choice([op, op, "add", "sub"])
+                self.emit(op2 + sfx, d, d, r.choice(BIG))
+            if sfx:
+                self.emit("ext32", d, d)
+            self.stat("const_chain")
         elif k == 20:
             # address of a register (ADDR, ADDR8/16/32): accesses of the variable's own width, narrower loads and
             # narrower stores through the pointer, next to direct uses of the register
